@@ -800,6 +800,7 @@ class Engine:
                                 sl = pol.filter_event(kind, sl, info) if sl else sl
                                 if sl:
                                     events.append(Event(kind, sink, sl, info, (bi, "term"), via=(cid,)))
+            self.current_ctrl = cur_ctrl[0]
             ret = pol.post_call(self, view, bi, t, ret or Val(), argvals)
             if cur_ctrl[0] is not None and _is_constantish(ret):
                 ret = v_join(ret, cur_ctrl[0])
